@@ -16,7 +16,16 @@ Sess == {"s1", "s2", "s3", "s4", "s5", "s6"}
 TopicsE == {"g1", "p12"}
 If(c, n) == IF c THEN {} ELSE {n}
 
-Check(v) ==
+\* a publish queued at a topic instance which the hub has meanwhile unloaded and replaced (gated history, see the harness):
+\* whatever was acknowledged carries a number nobody else got, and is stored under it; the store never holds a number twice
+CheckGate(v) ==
+  LET accepted == {a \in ToSet(v.acks) : a.code = 202}
+      stored == v.msgs["g1"] IN
+  If(Cardinality({a.seq : a \in accepted}) = Cardinality(accepted), "NoNumberIssuedTwice")
+  \cup If(Cardinality({stored[i].seq : i \in DOMAIN stored}) = Len(stored), "NothingStoredTwiceOrUnacknowledged")
+  \cup If(\A a \in accepted : \E i \in DOMAIN stored : stored[i].seq = a.seq /\ stored[i].c = a.c, "StoredUnderAcknowledgedNumber")
+
+CheckRun(v) ==
   LET acks == ToSet(v.acks)
       ok(t) == {a \in acks : a.t = t /\ a.code = 202}
   IN
@@ -44,6 +53,8 @@ Check(v) ==
   \cup If(Cardinality(acks) = v.sent, "EveryPublishAnswered")
   \* a write-less user never gets a message in
   \cup If(v.writeless # "" => \A a \in acks : (a.t = "g1" /\ (a.s = "s3" \/ a.s = "s6")) => a.code # 202, "WritelessNeverAccepted")
+
+Check(v) == IF v.op = "e2unloadgate" THEN CheckGate(v) ELSE CheckRun(v)
 
 Init == cur = 0 /\ bad = {} /\ div = {}
 Next == \E j \in 1..16 :
